@@ -35,7 +35,8 @@ PFail == [ok |-> FALSE, ast |-> Leaf("false"), rest |-> <<>>]
 POk(a, r) == [ok |-> TRUE, ast |-> a, rest |-> r]
 Bin(o, a, b) == [op |-> o, a |-> a, b |-> b]
 
-StartsOperand(ts) == ts # <<>> /\ (Head(ts) \in Leaves \/ Head(ts) \in {"not", "lp"})
+\* every token that is not an operator is a primary (so that richer vocabularies - FindSem - can reuse the grammar)
+StartsOperand(ts) == ts # <<>> /\ (Head(ts) \notin Operators \/ Head(ts) \in {"not", "lp"})
 
 RECURSIVE PList(_), PListTail(_, _), POr(_), POrTail(_, _), PAnd(_), PAndTail(_, _), PNot(_), PPrim(_)
 PList(ts) == LET r == POr(ts) IN IF r.ok THEN PListTail(r.ast, r.rest) ELSE PFail
@@ -65,7 +66,7 @@ PPrim(ts) ==
   ELSE IF Head(ts) = "lp"
   THEN LET r == PList(Tail(ts)) IN
        IF r.ok /\ r.rest # <<>> /\ Head(r.rest) = "rp" THEN POk(r.ast, Tail(r.rest)) ELSE PFail
-  ELSE IF Head(ts) \in Leaves THEN POk(Leaf(Head(ts)), Tail(ts))
+  ELSE IF Head(ts) \notin Operators THEN POk(Leaf(Head(ts)), Tail(ts))
   ELSE PFail
 
 \* The empty expression is well-formed (it is "-true", hence -print).
